@@ -7,6 +7,7 @@ import (
 	"fmt"
 	"io"
 	"os"
+	"strings"
 	"time"
 
 	frugal "github.com/Workiva/frugal/lib/go"
@@ -46,7 +47,10 @@ func Classify(err error) int {
 		case frugal.TRANSPORT_EXCEPTION_END_OF_FILE:
 			return CodeEOF
 		}
-		return CodeEOF
+		if strings.Contains(err.Error(), "EOF") {
+			return CodeEOF
+		}
+		return CodeOther
 	}
 	if e, ok := err.(thrift.TProtocolException); ok {
 		switch e.TypeId() {
